@@ -14,7 +14,7 @@ func init() {
 		ID:  "C19",
 		Run: runC19,
 		Meta: propMeta{
-			Explanation: "Two clauses of C19 that are visible in code shape. (1) A division whose operand type (or type-parameter type set) contains a signed integer type wraps for exactly one operand pair, (min, -1). Every such `/` in core/safemath must be dominated by a branch whose condition, evaluated over a closed table of atom forms at the one critical operand pair (divisor -1, other operand the signed minimum; forms d == -1, ^T(0) < 0, n != 0, n == -n, n < 0, combined with ! && || and through unexported one-argument predicate helpers), is known to take the edge that cannot reach the division (it reports the overflow). This is the only way an integer division can produce a wrapped value, so the clause 'never a wrapped value' is decided exactly for SafeDiv and for SafeMul's divide-back check. Functions over unsigned types only are recognised by their types and need no guard. (2) Every raw `*` or `<<` on non-constant integer operands is bound to a variable and every path from it to a nil-error return passes the edge on which the inverse operation (result/x == y, result>>shift == val) restored the operand - the exact overflow test the generic helpers rely on; a raw product returned directly (e.g. a fast path guarded only by an arithmetic argument) or validated by an ordering comparison is reported; a product with a factor all of whose definitions are the constants 1 or -1 (a sign) can only wrap by flipping the sign bit and must instead be followed, on every path to a nil-error return, by a branch over the result (its sign test).",
+			Explanation: "Three clauses of C19 that are visible in code shape. (1) A division whose operand type (or type-parameter type set) contains a signed integer type wraps for exactly one operand pair, (min, -1). Every such `/` in core/safemath must be dominated by a branch whose condition, evaluated over a closed table of atom forms at the one critical operand pair (divisor -1, other operand the signed minimum; forms d == -1, ^T(0) < 0, n != 0, n == -n, n < 0, combined with ! && || and through unexported one-argument predicate helpers), is known to take the edge that cannot reach the division (it reports the overflow). This is the only way an integer division can produce a wrapped value, so the clause 'never a wrapped value' is decided exactly for SafeDiv and for SafeMul's divide-back check. Functions over unsigned types only are recognised by their types and need no guard. (1b) Where the quotient is the result, the same guard folded over the unsigned members of the type set must be known false (it needs a conjunct such as ^T(0) < 0), otherwise (2^(n-1), max) gets a spurious overflow error. (2) Every raw `*` or `<<` on non-constant integer operands is bound to a variable and every path from it to a nil-error return passes the edge on which the inverse operation (result/x == y, result>>shift == val) restored the operand - the exact overflow test the generic helpers rely on; a raw product returned directly (e.g. a fast path guarded only by an arithmetic argument) or validated by an ordering comparison is reported; a product with a factor all of whose definitions are the constants 1 or -1 (a sign) can only wrap by flipping the sign bit and must instead be followed, on every path to a nil-error return, by a branch over the result (its sign test).",
 			NotDecided:  "exactness of add/sub/mul/shift results and absence of spurious errors for all operands (SafeAdd/SafeSub comparison idioms, the 128-bit reconstruction of SafeMulInt64/Safe64MulDiv, the carry comparisons) are arithmetic facts about values, not code shape; they are not claimed",
 			Assumptions: []string{"Go integer semantics: x / -1 wraps only for the minimum value of a signed type"},
 		},
